@@ -63,7 +63,7 @@ def gen_backward_case(rng, idx):
 
 
 def gen_mtl_case(rng, idx):
-    prog, feats, losses, tasks, shared = ajlib.gen_mtl(rng, nested=False)
+    prog, feats, losses, tasks, shared = ajlib.gen_mtl(rng, nested=False, alias=True if idx % 2 == 0 else None)
     t = len(losses)
     leaves = [x for x in range(prog.n()) if prog.is_leaf[x] and prog.req[x]]
     calls = []
